@@ -19,6 +19,24 @@ CHECKS = {
  "C05": ("non-linear AxCut programs from the pipeline; named machine vs positional/linear machine on the linearized program, plus an independent static checker of the ordered linear discipline over every path",
          "trusts the AxCut machines and the checker's reading of what the code generators assume (DESIGN C05)",
          "property-based differential testing + independent type checker for the linear discipline"),
+ "C06": ("linearized AxCut programs from two generators (pipeline output of generated Fun programs; a stateful generator of linear AxCut programs with environments up to 24 variables, objects with up to 8 fields, all operators/comparisons, 64-bit literals, arbitrary substitutions); the positional AxCut machine must agree with the emulation of the printed x86-64 text on the sequence of print calls and the returned value",
+         "trusts the x86-64 emulator's reading of the printed instruction subset (cross-checked against native execution by C01) and the AxCut machine",
+         "property-based differential testing: AxCut machine vs emulator of the emitted assembly text (stateful generator of linear programs)"),
+ "C07": ("as C06 for AArch64 (register-file boundary at 13 variables, MOVZ/MOVN/MOVK literal synthesis, SP alignment at every stack access)",
+         "trusts the AArch64 emulator (no hardware or qemu in the sandbox; text additionally accepted by llvm-mc in C14) and the AxCut machine",
+         "property-based differential testing: AxCut machine vs emulator of the emitted assembly text"),
+ "C08": ("print-free linear programs with at most 14 live variables: the value of X10 at `cleanup:` of the emulated RISC-V pseudo-assembly must equal the AxCut machine's result, and the x86-64 and AArch64 emulations of the same program must agree",
+         "trusts the emulator's reading of the backend's pseudo-syntax (64-bit LW/SW, blanks as separators)",
+         "property-based differential testing: AxCut machine vs three emulators"),
+ "C09": ("every execution of the C06-C08 domains on all three backends is audited at every statement-boundary marker: partition of all blocks below the frontier into reachable / reusable list / deferred list / waiting, exact reference counts, no write above the frontier, no access outside heap and own frame",
+         "trusts the auditor's reading of the block layout (DESIGN 3.5) and the marker hook (comments only, feature verif_hooks)",
+         "property-based testing with an invariant checked at every step of every emulated execution (heap auditor)"),
+ "C10": ("oracle 1: on every audited execution the allocation frontier stays within 3 blocks of the peak number of reachable blocks (bound derived from acquire_block); oracle 2: scalable loop families run at n, 4n, 16n iterations reach the same highest written heap address",
+         "trusts the auditor and the emulators; oracle 2 samples three sizes per family",
+         "property-based testing with a resource invariant + metamorphic relation over scalable program families"),
+ "C13": ("programs with print calls at every number of live variables 0..21 and every number of entry arguments, on the x86-64 and AArch64 emulators with an explicit calling-convention model: alignment at calls (and SP accesses on AArch64), callee-saved registers/stack pointer restored, result register, and poisoning of everything a callee may clobber",
+         "trusts the emulators' model of the System V and AAPCS64 conventions (DESIGN 3.4)",
+         "property-based testing against an executable calling-convention model (poison tracking)"),
 }
 
 DESIGN_REF = {k: f"DESIGN.md section 4/{k}" for k in ["C%02d" % i for i in range(1, 21)]}
